@@ -150,16 +150,19 @@ mutual
           | .index =>
             let s2 := { s1 with ts := next s1.ts }
             let idx := cur s2.ts
-            if op.typ == .dot then infixLoop m fuel p (.index op left idx) s2
+            if idx.typ != .ident then .err                      -- parseNameOperand
+            else if op.typ == .dot then infixLoop m fuel p (.index op left idx) s2
             else if (peek s2.ts).typ == .rbracket then
               infixLoop m fuel p (.index op left idx) { s2 with ts := next s2.ts }
             else .err
           | .between =>
             let s2 := { s1 with ts := next s1.ts }
             let lo := cur s2.ts
-            if (peek s2.ts).typ == .and then
+            if lo.typ != .ident then .err                       -- parseNameOperand
+            else if (peek s2.ts).typ == .and then
               let s3 := { s2 with ts := next (next s2.ts) }
-              infixLoop m fuel p (.between left lo (cur s3.ts)) s3
+              if (cur s3.ts).typ != .ident then .err
+              else infixLoop m fuel p (.between left lo (cur s3.ts)) s3
             else .err
           | .call =>
             match parseArgs m fuel s1 with
@@ -167,8 +170,9 @@ mutual
             | .err => .err
             | .outOfFuel => .outOfFuel
           | .isIn =>
-            match parseArgs m fuel { s1 with ts := next s1.ts } with
-            | .ok args s' => infixLoop m fuel p (.isIn left args) s'
+            if (peek s1.ts).typ != .lparen then .err            -- expectPeek(LPAREN)
+            else match parseArgs m fuel { s1 with ts := next s1.ts } with
+            | .ok args s' => if args.isEmpty then .err else infixLoop m fuel p (.isIn left args) s'
             | .err => .err
             | .outOfFuel => .outOfFuel
 
@@ -245,7 +249,7 @@ mutual
         | .outOfFuel => .outOfFuel
       else if isUpdateTok pk then
         match parseUpdateAction m fuel { s with ts := next s.ts } with
-        | .ok (.update _ acts) s' => actionsLoop m fuel op (acc ++ acts) s'
+        | .ok (.update _ acts) s' => if acts.isEmpty then .err else actionsLoop m fuel op (acc ++ acts) s'
         | .ok _ s' => actionsLoop m fuel op acc s'
         | .err => .err
         | .outOfFuel => .outOfFuel
